@@ -1,6 +1,6 @@
 /-
-  `crates/algorithms/src/measure.rs` (and `length.rs`), for paths made of line segments
-  (several sub-paths, closed/open, zero-length edges, single-point sub-paths).
+  `crates/algorithms/src/measure.rs` (and `length.rs`): several sub-paths, closed/open, zero-length
+  edges, single-point sub-paths, line / quadratic / cubic segments.
 
   Layout mirrors the Rust code:
 
@@ -17,13 +17,17 @@
     `splitRange` — `split_range` and what it sends to its output builder, as a `Path.Call` trace;
   * `step` — the sampler as a state machine `cursor → Query → cursor × Output`.
 
-  Curved segments are flattened through lyon_geom (modelled under C09); they are not part of this
-  model — curved paths are covered by the oracle of the C19 harness only.
+  Curved segments: `initialize` flattens them through `for_each_flattened_with_t`, taken from
+  C09's model (`Model/Geom/Flatten.lean`); `sample_impl` / `split_range` evaluate and split them
+  with C10's `Quad`/`Cubic` operations (`SegW`).  They are part of the executable model and of the
+  tie (family `curved`); the theorems about the table's shape are stated for polyline paths
+  (`Ev.isPoly` / `Step.isPoly`), the cursor/search/split-trace/length theorems for every table.
 
   Mathlib-free.
 -/
 import LyonVerif.Model.Scalar
 import LyonVerif.Model.Path.Trace
+import LyonVerif.Model.Geom.Flatten
 
 namespace Lyon.Measure
 open Lyon Scalar
@@ -35,6 +39,8 @@ variable {α : Type} [Scalar α]
 inductive Ev (α : Type) where
   | begin (at_ : P α) (a : List α)
   | line (from_ to : P α) (af at_ : List α)
+  | quad (from_ ctrl to : P α) (af at_ : List α)
+  | cubic (from_ ctrl1 ctrl2 to : P α) (af at_ : List α)
   | end_ (last first : P α) (al af : List α) (close : Bool)
 deriving Inhabited
 
@@ -42,6 +48,8 @@ deriving Inhabited
 inductive Cmd (α : Type) where
   | begin (p : P α) (a : List α)
   | line (p : P α) (a : List α)
+  | quad (c p : P α) (a : List α)
+  | cubic (c1 c2 p : P α) (a : List α)
   | end_ (close : Bool)
 
 /-- the events `Path::id_iter` yields for a command list; `st = (first, firstAttrs, cur, curAttrs)` -/
@@ -49,6 +57,8 @@ def evsFrom : P α × List α × P α × List α → List (Cmd α) → List (Ev 
   | _, [] => []
   | _, .begin p a :: r => .begin p a :: evsFrom (p, a, p, a) r
   | (f, fa, c, ca), .line p a :: r => .line c p ca a :: evsFrom (f, fa, p, a) r
+  | (f, fa, c, ca), .quad k p a :: r => .quad c k p ca a :: evsFrom (f, fa, p, a) r
+  | (f, fa, c, ca), .cubic k1 k2 p a :: r => .cubic c k1 k2 p ca a :: evsFrom (f, fa, p, a) r
   | (f, fa, c, ca), .end_ cl :: r => .end_ c f ca fa cl :: evsFrom (f, fa, c, ca) r
 
 def evsOf (cmds : List (Cmd α)) : List (Ev α) :=
@@ -64,11 +74,27 @@ structure Edge (α : Type) where
 def Edge.zero : Edge α := ⟨Scalar.zero, 0, Scalar.zero⟩
 
 /-- What one event does to the table: nothing (`End {close: false}`), push the running distance
-unchanged (`Begin`), or add a length and push (`Line`, `End {close: true}`). -/
+unchanged (`Begin`), add a length and push (`Line`, `End {close: true}`), or — for a curve — push
+one entry per flattened line: `(line.length(), t.end)` each, all with the event's index. -/
 inductive Step (α : Type) where
   | skip
   | mark
   | add (len : α)
+  | many (entries : List (α × α))
+
+def Step.isPoly : Step α → Bool
+  | .many _ => false
+  | _ => true
+
+/-- the entries a flattened curve pushes: `distance += line.length(); push(distance, index, t.end)` -/
+def pushMany : α → Nat → List (α × α) → List (Edge α)
+  | _, _, [] => []
+  | d, i, (l, t) :: r => ⟨d + l, i, t⟩ :: pushMany (d + l) i r
+
+/-- the running distance after them -/
+def sumMany : α → List (α × α) → α
+  | d, [] => d
+  | d, (l, _) :: r => sumMany (d + l) r
 
 /-- 1-D core of `initialize`: running distance `d`, event index `i`. -/
 def init1 : α → Nat → List (Step α) → List (Edge α)
@@ -76,6 +102,7 @@ def init1 : α → Nat → List (Step α) → List (Edge α)
   | d, i, .skip :: r => init1 d (i+1) r
   | d, i, .mark :: r => ⟨d, i, one⟩ :: init1 d (i+1) r
   | d, i, .add l :: r => ⟨d + l, i, one⟩ :: init1 (d + l) (i+1) r
+  | d, i, .many es :: r => pushMany d i es ++ init1 (sumMany d es) (i+1) r
 
 /-- euclid `Vector2D::length` -/
 def vlen [Transc α] (v : P α) : α := Transc.sqrt (v.x * v.x + v.y * v.y)
@@ -83,15 +110,29 @@ def vlen [Transc α] (v : P α) : α := Transc.sqrt (v.x * v.x + v.y * v.y)
 /-- euclid `Vector2D::normalize`: `self / self.length()` -/
 def normalize [Transc α] (v : P α) : P α := v.sdiv (vlen v)
 
-def stepOf [Transc α] : Ev α → Step α
+/-- `(line.length(), t.end)` of the lines `for_each_flattened_with_t` emits (C09's model of the
+flattening; `none` there is the `to_u32().unwrap()` panic on a non-finite count, not reachable
+from finite input) -/
+def flatEntries [Transc α] (l : Option (List (FlatSeg α))) : List (α × α) :=
+  (l.getD []).map (fun s => (vlen (s.b - s.a), s.t1))
+
+/-- what one event does, at flattening tolerance `tol` (already `tolerance.max(1e-4)`) -/
+def stepOf [Transc α] [FlatConst α] (tol : α) : Ev α → Step α
   | .begin _ _ => .mark
   | .line f t _ _ => .add (vlen (f - t))
+  | .quad f c t _ _ => .many (flatEntries (Quad.forEachFlattenedWithT ⟨f, c, t⟩ tol))
+  | .cubic f c1 c2 t _ _ => .many (flatEntries (Cubic.forEachFlattenedWithT ⟨f, c1, c2, t⟩ tol))
   | .end_ l f _ _ true => .add (vlen (l - f))
   | .end_ _ _ _ _ false => .skip
 
+def Ev.isPoly : Ev α → Bool
+  | .quad _ _ _ _ _ => false
+  | .cubic _ _ _ _ _ _ => false
+  | _ => true
+
 /-- `PathMeasurements::initialize` (edge table) -/
-def initTable [Transc α] (evs : List (Ev α)) : List (Edge α) :=
-  init1 zero 0 (evs.map stepOf)
+def initTable [Transc α] [FlatConst α] (tol : α) (evs : List (Ev α)) : List (Edge α) :=
+  init1 zero 0 (evs.map (stepOf tol))
 
 /-- `length.rs: approximate_length` on a polyline path -/
 def approxLengthFrom [Transc α] : α → List (Ev α) → α
@@ -207,16 +248,45 @@ structure M (α : Type) where
   edges : List (Edge α)
   nattr : Nat
 
-def mk [Transc α] (nattr : Nat) (cmds : List (Cmd α)) : M α :=
-  ⟨evsOf cmds, initTable (evsOf cmds), nattr⟩
+/-- `PathMeasurements::from_path(path, tolerance)`: `tolerance.max(1e-4)` -/
+def mk [Transc α] [FlatConst α] (nattr : Nat) (tolerance : α) (cmds : List (Cmd α)) : M α :=
+  ⟨evsOf cmds, initTable (Scalar.max tolerance (ofSci 1 4)) (evsOf cmds), nattr⟩
 
 def evAt (m : M α) (i : Nat) : Ev α := m.evs.getD i (.end_ ⟨zero, zero⟩ ⟨zero, zero⟩ [] [] false)
 
-/-- `to_segment` restricted to what it yields for polyline events: a line segment with the
-attributes of its two endpoints, or `Empty` (`none`) -/
-def toSegment : Ev α → Option (P α × P α × List α × List α)
-  | .line f t af at_ => some (f, t, af, at_)
-  | .end_ l f al af true => some (l, f, al, af)
+/-- `SegmentWrapper` (without `Empty`) -/
+inductive SegW (α : Type) where
+  | line (s : Seg α)
+  | quad (q : Quad α)
+  | cubic (c : Cubic α)
+
+def SegW.sample : SegW α → α → P α
+  | .line s, t => s.sample t
+  | .quad q, t => q.sample t
+  | .cubic c, t => c.sample t
+
+def SegW.derivative : SegW α → α → P α
+  | .line s, _ => s.toVector
+  | .quad q, t => q.derivative t
+  | .cubic c, t => c.derivative t
+
+/-- `SegmentWrapper::split(range)` -/
+def SegW.split : SegW α → α → α → SegW α
+  | .line s, a, b => .line (s.splitRange a b)
+  | .quad q, a, b => .quad (q.splitRange a b)
+  | .cubic c, a, b => .cubic (c.splitRange a b)
+
+def SegW.start : SegW α → P α
+  | .line s => s.a
+  | .quad q => q.a
+  | .cubic c => c.a
+
+/-- `to_segment`: the segment with the attributes of its two endpoints, or `Empty` (`none`) -/
+def toSegment : Ev α → Option (SegW α × List α × List α)
+  | .line f t af at_ => some (.line ⟨f, t⟩, af, at_)
+  | .quad f c t af at_ => some (.quad ⟨f, c, t⟩, af, at_)
+  | .cubic f c1 c2 t af at_ => some (.cubic ⟨f, c1, c2, t⟩, af, at_)
+  | .end_ l f al af true => some (.line ⟨l, f⟩, al, af)
   | _ => none
 
 /-- `sample_zero_length` -/
@@ -228,7 +298,7 @@ def sampleZeroLength (m : M α) : SampleOut α :=
 /-- the dispatch at the end of `sample_impl`, with `unreachable!()` as `panic` -/
 def sampleOn [Transc α] (m : M α) (c : Nat) (t : α) : SampleOut α :=
   match toSegment (evAt m (eAt m.edges c).index) with
-  | some (f, to, af, at_) => .ok (f.lerp to t) (normalize (to - f)) (interp af at_ t)
+  | some (sg, af, at_) => .ok (sg.sample t) (normalize (sg.derivative t)) (interp af at_ t)
   | none => .panic
 
 /-- `dist *= length` (normalized), `dist.max(0.0).min(length)` -/
@@ -280,21 +350,31 @@ def obtainAttrs (range : Option (α × α)) (af at_ : List α) (which : Bool) : 
 
 def isEdgeEv : Ev α → Bool
   | .line _ _ _ _ => true
+  | .quad _ _ _ _ _ => true
+  | .cubic _ _ _ _ _ _ => true
   | _ => false
 
-def segCalls (inSub : Bool) (range : Option (α × α)) (f to : P α) (af at_ : List α) : List (Call α) :=
+/-- `match range { Some(range) => segment.split(range), None => segment }` -/
+def applyRange (range : Option (α × α)) (sg : SegW α) : SegW α :=
   match range with
-  | some (t0, t1) =>
-    (if inSub then [] else [.end_ false, .begin (f.lerp to t0) (obtainAttrs range af at_ false)])
-      ++ [.line (f.lerp to t1) (obtainAttrs range af at_ true)]
-  | none =>
-    (if inSub then [] else [.end_ false, .begin f (obtainAttrs range af at_ false)])
-      ++ [.line to (obtainAttrs range af at_ true)]
+  | some (t0, t1) => sg.split t0 t1
+  | none => sg
+
+/-- `dest.line_to / quadratic_bezier_to / cubic_bezier_to` of the (split) segment -/
+def SegW.edgeCall : SegW α → List α → Call α
+  | .line s, a => .line s.b a
+  | .quad q, a => .quad q.c q.b a
+  | .cubic c, a => .cubic c.c1 c.c2 c.b a
+
+def segCalls (inSub : Bool) (range : Option (α × α)) (sg : SegW α) (af at_ : List α) : List (Call α) :=
+  (if inSub then [] else
+    [.end_ false, .begin (applyRange range sg).start (obtainAttrs range af at_ false)])
+    ++ [(applyRange range sg).edgeCall (obtainAttrs range af at_ true)]
 
 /-- `add_segment`: calls sent to the builder and the new `is_in_subpath` -/
 def addSegment (m : M α) (p : Piece α) (inSub : Bool) : List (Call α) × Bool :=
   (match toSegment (evAt m p.seg) with
-   | some (f, to, af, at_) => segCalls inSub p.range f to af at_
+   | some (sg, af, at_) => segCalls inSub p.range sg af at_
    | none => [],
    isEdgeEv (evAt m p.seg))
 
